@@ -196,8 +196,8 @@ class CellCycleController:
 
         if result == LockResult.ACQUIRED or result == LockResult.REENTRANT:
             ctx.add_acquired_resource(lock)
-            # Remove any dependency since we now own it
-            self.dependency_graph.remove_all_for_agent(ctx.operation_id)
+            # We no longer wait for this resource (others may still wait on us)
+            self.dependency_graph.remove_wait(ctx.operation_id, resource_id)
 
         elif result == LockResult.BLOCKED:
             # Add to dependency graph
@@ -209,8 +209,9 @@ class CellCycleController:
 
         elif result == LockResult.PREEMPTED:
             ctx.add_acquired_resource(lock)
-            # Clear old dependencies
-            self.dependency_graph.remove_all_for_agent(ctx.operation_id)
+            # We own it now; its other waiters wait on us
+            self.dependency_graph.remove_wait(ctx.operation_id, resource_id)
+            self.dependency_graph.retarget_resource(resource_id, ctx.operation_id)
 
         return result
 
@@ -224,7 +225,8 @@ class CellCycleController:
 
         if released:
             del ctx.acquired_resources[resource_id]
-            self.dependency_graph.remove_all_for_agent(ctx.operation_id)
+            if lock.owner is None:
+                self.dependency_graph.retarget_resource(resource_id, None)
 
         return released
 
@@ -248,6 +250,7 @@ class CellCycleController:
         Releases all resources and cleans up.
         """
         self.release_all_resources(ctx)
+        self.dependency_graph.remove_all_for_agent(ctx.operation_id)
         ctx.enter_phase(Phase.G0)
 
         if ctx.operation_id in self.active_operations:
@@ -274,6 +277,7 @@ class CellCycleController:
         Releases all resources and cleans up.
         """
         self.release_all_resources(ctx)
+        self.dependency_graph.remove_all_for_agent(ctx.operation_id)
         ctx.enter_phase(Phase.G0)
 
         if ctx.operation_id in self.active_operations:
